@@ -19,6 +19,7 @@ func genLease(c *Ctx) error {
 	}
 	directedFailedHandoff(c)
 	directedClusterIDFault(c)
+	directedRenewalOutage(c)
 	for h := 0; h < nHist; h++ {
 		nNodes := r.Range(2, 3)
 		cs := c.Begin()
@@ -31,12 +32,18 @@ func genLease(c *Ctx) error {
 		if r.Chance(1, 2) {
 			nc = r.Intn(nNodes)
 		}
-		if nc >= 0 {
-			do(fmt.Sprintf("cluster %d nc=%d", nNodes, nc))
-		} else {
-			do(fmt.Sprintf("cluster %d", nNodes))
+		// every other history runs the real Consul leaser (consul/consul.go) against a fake Consul
+		// server instead of the simulated leaser; the scripted lease-service state is the same
+		mode := ""
+		if h%2 == 1 {
+			mode = " consul"
 		}
-		fmt.Fprintf(&sig, "n=%d,nc=%d", nNodes, nc)
+		if nc >= 0 {
+			do(fmt.Sprintf("cluster %d nc=%d%s", nNodes, nc, mode))
+		} else {
+			do(fmt.Sprintf("cluster %d%s", nNodes, mode))
+		}
+		fmt.Fprintf(&sig, "n=%d,nc=%d%s", nNodes, nc, mode)
 		// cluster ids: service and some data directories
 		svcCid := pick(r, []string{"-", "-", "A", "B"})
 		if svcCid != "-" {
@@ -169,12 +176,52 @@ func genLease(c *Ctx) error {
 	return nil
 }
 
+// directedRenewalOutage: the lease service answers every renewal with an error for longer than
+// the lease's time to live: the primary must stop acting as primary (its primary context is
+// cancelled) and give the lease up; afterwards another node can take it.
+func directedRenewalOutage(c *Ctx) {
+	for _, mode := range []string{"", " consul"} {
+		cs := c.Begin()
+		do := func(op string) string { c.Count("op." + strings.Fields(op)[0]); return cs.Do(op) }
+		obs := func(what string) {
+			if out := do("quiet"); out != "ok" {
+				c.Fail("renewal outage scenario (" + mode + ", " + what + "): a node acts as primary without holding the lease (or the reverse): " + out)
+			}
+			do("roles")
+			do("events")
+			do("pctx 0")
+		}
+		do("cluster 2" + mode)
+		do("lease-ttl mid") // a TTL longer than renewal time-out + retry interval: the primary retries before it gives up
+		do("allow 0")
+		do("up 0")
+		do("up 1")
+		obs("node 0 primary")
+		do("pctx-take 0")
+		do("allow -1")
+		do("renewerr on")
+		obs("renewals failed for a full TTL")
+		do("n 0 import 00") // refused: not primary any more
+		do("renewerr off")
+		do("allow 1")
+		do("sync")
+		obs("node 1 took over")
+		cs.End()
+		c.Count("directed.renewal-outage")
+		c.Nontrivial("directed-renewal-outage" + mode)
+	}
+}
+
 // directedClusterIDFault: a node wins the election and the lease service stops answering right
 // after the acquisition (the cluster-id lookup at the head of monitorLeaseAsPrimary fails): the
 // node must give the lease back and must not act as primary; when the service answers again the
 // election proceeds normally.
 func directedClusterIDFault(c *Ctx) {
-	for _, variant := range []string{"first-election", "after-demotion", "other-node"} {
+	for _, variant := range []string{"first-election", "after-demotion", "other-node", "first-election consul", "after-demotion consul", "other-node consul"} {
+		mode := ""
+		if strings.HasSuffix(variant, " consul") {
+			mode, variant = " consul", strings.TrimSuffix(variant, " consul")
+		}
 		cs := c.Begin()
 		do := func(op string) string { c.Count("op." + strings.Fields(op)[0]); return cs.Do(op) }
 		obs := func(what string) {
@@ -186,7 +233,7 @@ func directedClusterIDFault(c *Ctx) {
 			do("pctx 0")
 			do("pctx 1")
 		}
-		do("cluster 2")
+		do("cluster 2" + mode)
 		winner := 0
 		switch variant {
 		case "first-election":
@@ -217,14 +264,18 @@ func directedClusterIDFault(c *Ctx) {
 		obs("service answers again")
 		cs.End()
 		c.Count("directed.cluster-id-fault")
-		c.Nontrivial("directed-cid-fault-" + variant)
+		c.Nontrivial("directed-cid-fault-" + variant + mode)
 	}
 }
 
 // directedFailedHandoff: a handoff whose renewal fails leaves the primary in place; when that
 // primary later stops (demotion, shutdown) its lease must be destroyed; a later handoff works.
 func directedFailedHandoff(c *Ctx) {
-	for _, end := range []string{"demote", "down", "handoff"} {
+	for _, end := range []string{"demote", "down", "handoff", "demote consul", "down consul", "handoff consul"} {
+		mode := ""
+		if strings.HasSuffix(end, " consul") {
+			mode, end = " consul", strings.TrimSuffix(end, " consul")
+		}
 		cs := c.Begin()
 		do := func(op string) string { c.Count("op." + strings.Fields(op)[0]); return cs.Do(op) }
 		obs := func() {
@@ -235,7 +286,7 @@ func directedFailedHandoff(c *Ctx) {
 			do("events")
 			do("pctx 0")
 		}
-		do("cluster 2")
+		do("cluster 2" + mode)
 		do("lease-ttl long") // no periodic renewal: the only renewal is the one inside the handoff
 		do("allow 0")
 		do("up 0")
@@ -263,7 +314,7 @@ func directedFailedHandoff(c *Ctx) {
 		do("quiet")
 		do("roles")
 		do("events")
-		c.Nontrivial("failed-handoff-" + end)
+		c.Nontrivial("failed-handoff-" + end + mode)
 		cs.End()
 	}
 }
